@@ -210,6 +210,8 @@ def run_wire(prop, spec, tier, seed, work, replay):
                 s["epilogue"] = True
             # (unserialisable payloads: mostly towards websocket peers with keep-alive, whose send loop is another one)
             cscn += over_transports(part, seed + gi, ["wsk-json", "wsk-msgpack", "wsk-cbor", "ws-msgpack", "rs-json"] if mode == "unser" else None)
+    if not replay and [k for k in known_findings(prop) if k.get("status") == "known" and k.get("deviation")]:
+        cscn.append(families.known_finding_scenario(prop))
     byid = {s["id"]: s for s in wscn + cscn}
     cov_w, cov_c, cov_s = (0, 0, []), (0, 0, []), (0, 0, [])
     if wscn:
